@@ -391,7 +391,7 @@ func genCase(seed uint64, idx int) (*c08case, error) {
 	if err != nil {
 		return nil, err
 	}
-	c := &c08case{Kind: "diff", Class: "chain", Cfg: []string{"v1", "v2"}[idx%2], Builder: idx%4 == 1, FileA: hlib.Ints(cur)}
+	c := &c08case{Kind: "diff", Class: "chain", Cfg: []string{"v1", "v2"}[idx%2], Builder: idx%8 == 1, FileA: hlib.Ints(cur)}
 	nsteps := 1 + r.Intn(5)
 	for s := 0; s < nsteps; s++ {
 		if r.Chance(1, 4) {
@@ -413,7 +413,7 @@ func genCase(seed uint64, idx int) (*c08case, error) {
 		}
 		d = withNoise(r, d)
 		fb := "batches"
-		if idx%4 == 3 && s == 0 {
+		if idx%8 == 5 && s == 0 {
 			fb = "builder"
 		}
 		c.Steps = append(c.Steps, stepJ{Diff: hlib.Ints(complib.Join(d, r.Chance(3, 4))), NewFile: hlib.Ints(next), Intent: intent, ExpectOk: true, FreshBy: fb})
